@@ -36,6 +36,7 @@ def run(ctx):
     ctx.touched(bps.path, b2.path, b1.path)
     c07_1(ctx, bps, b2)
     c07_2(ctx, b1, b2)
+    c07_blockrefs(ctx)
     c07_3(ctx, b2)
 
 
@@ -108,8 +109,47 @@ def _post_loop(b):
     return {"order": order, "validated_signature": str(vs), "after_validation": after}
 
 
+def c07_blockrefs(ctx):
+    """both paths hand the generator the referenced blocks in the caller's order: each builds the list from the tail by
+    walking `block_refs` reversed and prepending new_atom(ref)"""
+    R = "C07.2"
+    fb = ctx.fb
+    shapes = {}
+    for nm in ("run_block_generator", "setup_generator_args"):
+        f = _fn(fb, RBG + nm)
+        if not f:
+            ctx.missing(R, "block-ref-order:" + nm, "not found")
+            continue
+        b = Body(f, fb)
+        ctx.touched(b.path)
+        cons = []
+        for bi, n, t in b.calls():
+            if n.endswith("Allocator::new_pair") and b.in_cycle(bi):
+                a1 = apnf.N(strip_all(b.operand_term(t["args"][1])))
+                a2 = apnf.N(strip_all(b.operand_term(t["args"][2])))
+                cons.append((a1, a2))
+        shape = None
+        if len(cons) == 1:
+            head, tail = cons[0]
+            hs = str(head)
+            it = "rev" if "('rev'," in hs or "Rev" in hs else ("fwd" if "next" in hs else "?")
+            is_atom = hs.startswith("('Allocator::new_atom'") and "block_refs" in hs
+            acc = "acc" if ("new_pair" in str(tail) or "nil" in str(tail).lower() or "NIL" in str(tail) or str(tail).startswith("var:")
+                            or "after" in str(tail)) else "?"
+            shape = (it, "prepend-atom" if is_atom else "?", acc)
+        shapes[nm] = shape
+        ctx.ob(R, "block-ref-order:" + nm, shape is not None and shape[0] == "rev" and shape[1] == "prepend-atom",
+               "%s walks block_refs in reverse and prepends new_atom(ref): the generator sees the references in the caller's order" % nm,
+               found=str(cons)[:300], where=f.sp)
+    if len(shapes) == 2:
+        ctx.ob(R, "block-ref-order:siblings", shapes["run_block_generator"] == shapes["setup_generator_args"] and None not in shapes.values(),
+               "the legacy and the native argument builders construct the block list the same way", found={k: str(v) for k, v in shapes.items()})
+
+
 def c07_1(ctx, bps, b2):
     R = "C07.1"
+    from . import c01_effects
+    c01_effects.c01_6(ctx, R="C07.1")
     # first(output)
     f1 = [strip_all(bps.operand_term(t["args"][1])) for bi, n, t in bps.calls() if n.endswith("validation_error::first")]
     f2 = [strip_all(b2.operand_term(t["args"][1])) for bi, n, t in b2.calls() if n.endswith("validation_error::first")]
